@@ -143,7 +143,7 @@ for fl in ("global", "async"):
     for (pol, lim, ttl, mem) in [("lru", 1, None, None), ("fifo", 1, 2, None), ("fifo", 2, None, 100), ("lfu", 1, None, None),
                                  ("random", 1, None, None), ("arc", 1, None, None), ("tlru", 1, 2, None), ("fifo", None, None, None),
                                  ("lru", 2, None, None), ("fifo", 1, None, None)]:
-        add(fid, "conc", fl, policy=pol, limit=lim, ttl=ttl, mem=mem, tags=("t",), events=("e",))
+        add(fid, "conc", fl, policy=pol, limit=lim, ttl=ttl, mem=mem, tags=("t",), events=("e",), deps=("d",))
         fid += 1
 # thread-scope drivers (C14)
 for (pol, lim) in [(None, None), ("fifo", 1), ("lru", 1), ("lfu", 1), ("arc", 2), ("random", 1), ("tlru", 2), ("lru", 2)]:
